@@ -193,9 +193,9 @@ def run(prog, rep, tier):
     # ------------------------------------------------------------ R12.2 (lifted)
     s5 = _sub(prog, rep, c05, "C05")
     for (rid, key, what, detail) in s5.violations:
-        if rid in ("R5.1", "R5.1b", "R5.1c"):
+        if rid in ("R5.1", "R5.1b", "R5.1c", "R5.2", "R5.8"):
             rep.violation(R122, key.split("|", 1)[1], what)
-    for rid in ("R5.1", "R5.1b"):
+    for rid in ("R5.1", "R5.1b", "R5.2", "R5.8"):
         for s in s5.rules.get(rid, {}).get("samples", []):
             rep.examined(R122, "%s|%s" % (rid, str(s)[:60]), sample=s)
     s2 = _sub(prog, rep, c02, "C02")
